@@ -59,8 +59,27 @@ func handLines(s string) []string {
 
 // expandDefsByHand: full (acyclic) expansion of `{{name}}` by the first definition of each name.
 func expandDefsByHand(lines []string) ([]string, error) {
+	rest, _, err := expandDefsByHandWith(lines, nil)
+	return rest, err
+}
+
+// handDefs: definitions in the order made (the first definition of a name wins)
+type handDefs struct {
+	val   map[string]string
+	order []string
+}
+
+// expandDefsByHandWith: the same with definitions handed down from another file (they were made first, so they win);
+// returns the definitions the text ended up with as well
+func expandDefsByHandWith(lines []string, inherited *handDefs) ([]string, *handDefs, error) {
 	defs := map[string]string{}
 	var order []string
+	if inherited != nil {
+		for _, n := range inherited.order {
+			defs[n] = inherited.val[n]
+			order = append(order, n)
+		}
+	}
 	var rest []string
 	for _, l := range lines {
 		if m := hDefine.FindStringSubmatch(l); m != nil {
@@ -96,11 +115,11 @@ func expandDefsByHand(lines []string) ([]string, error) {
 	for i, l := range rest {
 		e, err := expand(l, 0)
 		if err != nil {
-			return nil, err
+			return nil, nil, err
 		}
 		rest[i] = e
 	}
-	return rest, nil
+	return rest, &handDefs{val: defs, order: order}, nil
 }
 
 func rewriteSuffixByHand(lines []string, pairText string) []string {
@@ -136,26 +155,38 @@ func rewriteSuffixByHand(lines []string, pairText string) []string {
 
 // inlineFileByHand: the lines an include of `name` stands for.
 func inlineFileByHand(files handFiles, name string, depth int) ([]string, error) {
+	ls, _, err := inlineFileByHandWith(files, name, depth, nil)
+	return ls, err
+}
+
+// inlineFileByHandWith: the same for a file that is read with definitions handed down to it (the exclusion files of an
+// include-except are read with the definitions of the include file, and of the exclusion files before them)
+func inlineFileByHandWith(files handFiles, name string, depth int, inherited *handDefs) ([]string, *handDefs, error) {
+	ls, defs, err := inlineFileByHandWith0(files, name, depth, inherited)
+	return ls, defs, err
+}
+
+func inlineFileByHandWith0(files handFiles, name string, depth int, inherited *handDefs) ([]string, *handDefs, error) {
 	if depth > 10 {
-		return nil, fmt.Errorf("include depth")
+		return nil, nil, fmt.Errorf("include depth")
 	}
 	content, found := files[strings.TrimSuffix(name, ".ra")]
 	if !found {
-		return nil, fmt.Errorf("no such include file %s", name)
+		return nil, nil, fmt.Errorf("no such include file %s", name)
 	}
 	lines, err := inlineLinesByHand(files, handLines(content), depth)
 	if err != nil {
-		return nil, err
+		return nil, nil, err
 	}
 	// the file's own definitions are applied to its own text and do not leave it
-	lines, err = expandDefsByHand(lines)
+	lines, defsOut, err := expandDefsByHandWith(lines, inherited)
 	if err != nil {
-		return nil, err
+		return nil, nil, err
 	}
 	var pre, suf, body []string
 	for _, l := range lines {
 		if hFlags.MatchString(l) {
-			return nil, fmt.Errorf("flags in include file")
+			return nil, nil, fmt.Errorf("flags in include file")
 		}
 		if m := hPrefix.FindStringSubmatch(l); m != nil {
 			pre = append(pre, m[1])
@@ -168,7 +199,7 @@ func inlineFileByHand(files handFiles, name string, depth int) ([]string, error)
 		}
 	}
 	if len(pre) == 0 && len(suf) == 0 {
-		return body, nil
+		return body, defsOut, nil
 	}
 	// prefixes and suffixes bind the file's own entries only: a local block
 	out := []string{"##!> assemble"}
@@ -182,20 +213,21 @@ func inlineFileByHand(files handFiles, name string, depth int) ([]string, error)
 	for _, s := range suf {
 		out = append(out, s, "##!=>")
 	}
-	return append(out, "##!<"), nil
+	return append(out, "##!<"), defsOut, nil
 }
 
 func inlineLinesByHand(files handFiles, lines []string, depth int) ([]string, error) {
 	var out []string
 	for _, l := range lines {
 		if m := hInclEx.FindStringSubmatch(l); m != nil {
-			inc, err := inlineFileByHand(files, m[1], depth+1)
+			inc, shared, err := inlineFileByHandWith(files, m[1], depth+1, nil)
 			if err != nil {
 				return nil, err
 			}
 			excluded := map[string]bool{}
 			for _, x := range asciiFields(m[2]) {
-				xs, err := inlineFileByHand(files, x, depth+1)
+				var xs []string
+				xs, shared, err = inlineFileByHandWith(files, x, depth+1, shared)
 				if err != nil {
 					return nil, err
 				}
@@ -562,6 +594,9 @@ func genParserCases(focus string) func(r *rand.Rand, tier string, env *Env) []Ca
 				args := append(append(append([][]byte{}, empty...), []byte(prog)), sib...)
 				cases = append(cases, Case{Kind: "extension-less-sibling", Ops: []Op{{"parse.run", args[6:]}, {"gen.run", args}}, Oracles: []Op{{"parser.inline", args}}})
 			}
+		}
+		if focus == "except" {
+			cases = append(cases, sharedDefinitionCases("parser.inline")...)
 		}
 		if focus == "defs" || focus == "include" {
 			// definitions of the including file reach the text of included files — also when the including file has
